@@ -6,6 +6,7 @@ import (
 	"go/constant"
 	"go/token"
 	"go/types"
+	"math"
 
 	"github.com/quasilyte/go-ruleguard/ruleguard/goutil"
 	"golang.org/x/tools/go/ast/astutil"
@@ -138,7 +139,7 @@ func (cl *compiler) compileFunc(fn *ast.FuncDecl) *Func {
 		}
 	}
 	cl.ctx.Env.debug.funcs[compiled] = dbg
-	cl.linkJumps()
+	cl.linkJumps(fn)
 	return compiled
 }
 
@@ -735,6 +736,9 @@ func (cl *compiler) compileConstantValue(source ast.Expr, cv constant.Value) {
 	case constant.String:
 		v := constant.StringVal(cv)
 		id := cl.internConstant(v)
+		if id > math.MaxUint8 {
+			panic(cl.errorf(source, "too many constants: a function can use up to %d", math.MaxUint8+1))
+		}
 		cl.emit8(opPushConst, id)
 
 	case constant.Int:
@@ -743,6 +747,9 @@ func (cl *compiler) compileConstantValue(source ast.Expr, cv constant.Value) {
 			panic(cl.errorf(source, "non-exact int value"))
 		}
 		id := cl.internIntConstant(int(v))
+		if id > math.MaxUint8 {
+			panic(cl.errorf(source, "too many int constants: a function can use up to %d", math.MaxUint8+1))
+		}
 		cl.emit8(opPushIntConst, id)
 
 	case constant.Complex:
@@ -779,10 +786,13 @@ func (cl *compiler) internConstant(v interface{}) int {
 	return id
 }
 
-func (cl *compiler) linkJumps() {
+func (cl *compiler) linkJumps(fn *ast.FuncDecl) {
 	for _, l := range cl.labels {
 		for _, jumpPos := range l.sources {
 			offset := l.targetPos - jumpPos
+			if offset < math.MinInt16 || offset > math.MaxInt16 {
+				panic(cl.errorf(fn.Name, "function is too big: a jump offset %d can't be encoded", offset))
+			}
 			patchPos := jumpPos + 1
 			put16(cl.code, patchPos, offset)
 		}
